@@ -4,7 +4,8 @@
 def _nontrivial(op, out):
     # a join query that returned at least one row
     # … or a plan dump (`jf`) with at least one join node
-    return (out.startswith("rows ") and not out.startswith("rows 0")) or out.startswith("flags ")
+    # … or a scheduled run of a join node (`sj` / `oj`, shared with C19) that emitted something
+    return (out.startswith("rows ") and not out.startswith("rows 0")) or out.startswith("flags ") or out.startswith("ok R") or out.startswith("ok W")
 
 
 PROP = dict(
@@ -24,7 +25,8 @@ PROP = dict(
          "(theta comparisons, IS NULL, one-sided, disjunctions, constants), sub-select inputs, WHERE over the joined row, optional "
          "SELECT list, with and without --optimize, in all five output modes; every second query also through the REAL planner in-process (`jf`: NoRetractions flag of the root and of every "
          "join node, typechecked and optimized, against Plan.noRetr); `late match` lines: an outer join below another join, csv/json, the partners "
-         "of the outer side's rows at the end of a 1200-1800 row file; non-trivial = the run returned at least one row / a plan dump",
+         "of the outer side's rows at the end of a 1200-1800 row file; `sj`/`oj` lines: one in eight of C19's scheduled runs of the real StreamJoin / OuterJoin nodes "
+         "(scripted inputs with retractions, event times and watermarks under a chosen interleaving), judged by C19's oracle; non-trivial = the run returned at least one row / a plan dump",
     exhaustive=dict(quick=False, thorough=False),
     assumptions=["SQL fragment: FROM = tables, (SELECT * FROM t WHERE p) sub-selects and JOIN / LOOKUP JOIN / LEFT / RIGHT / OUTER JOIN trees; "
                  "WHERE; SELECT list of expressions; expressions of the modelled subset (columns, literals, + - *, comparisons, AND/OR/NOT, IS [NOT] NULL)",
